@@ -453,6 +453,44 @@ def mutable_default_values(rep):
                 rep.violation(f"default-value:repeat:{cls.__name__}", "property-violated",
                               {"what": "repeating load with an equal argument gives a different result after an earlier result was changed",
                                "model": cls.__name__, "mode": mode.name, "first_call": snapshot, "later_call": repr(third)})
+    # the same for containers given to link_constant: each conversion gets a container of its own
+    from dataclasses import dataclass as _dc
+
+    from adaptix import P
+    from adaptix.conversion import get_converter, impl_converter, link_constant
+
+    @_dc
+    class Sc:
+        a: int
+
+    @_dc
+    class Dcn:
+        a: int
+        tags: Any
+        opts: Any
+        seen: Any
+    recipe = [link_constant(P[Dcn].tags, value=["x", [1]]), link_constant(P[Dcn].opts, value={"k": [1]}), link_constant(P[Dcn].seen, value={1, 2})]
+
+    def stub(s: Sc) -> Dcn:
+        ...
+    for label, conv in (("get_converter", get_converter(Sc, Dcn, recipe=recipe)), ("impl_converter", impl_converter(recipe=recipe)(stub))):
+        n += 3
+        first, second = conv(Sc(1)), conv(Sc(1))
+        snapshot = repr(first)
+        shared = [c for c in containers(first, []) if any(c is d for d in containers(second, []))]
+        if shared:
+            rep.violation(f"constant-value:shared:{label}", "property-violated",
+                          {"what": "two results of one converter share a mutable container built for a link_constant value",
+                           "converter": label, "shared": repr(shared)[:200]})
+            continue
+        first.tags.append("changed")
+        first.opts["changed"] = 1
+        first.seen.add(99)
+        third = conv(Sc(1))
+        if repr(third) != snapshot or third != second:
+            rep.violation(f"constant-value:repeat:{label}", "property-violated",
+                          {"what": "repeating convert with an equal argument gives a different result after an earlier result was changed",
+                           "converter": label, "first_call": snapshot, "later_call": repr(third)})
     return n
 
 
